@@ -716,6 +716,11 @@ def main():
     run.assume("spaces with a dof transformation (BC, RBC, DUAL) are rejected by the dense assembler; their colouring is still part of the sweep")
     run.assume("OpenCL kernels are not covered (no OpenCL device in this environment)")
     run.assumed_contract("store values", "the analysis decides WHERE iterations write, not WHAT: values are covered by C01-C08")
+    run.assumed_contract("block preconditions of contracts/dofmap_blocks.py",
+                         "each block is verified per iteration under its `requires` (rows of an unprocessed element still zero, dof numbers of marked vertices / edges "
+                         "non-negative, an element kept in the support has a dof).  For RWG / SNC the last one is the postcondition of `_rwg_selection_block` together with "
+                         "the frame clause (dof numbers never return to -1); the others follow from the allocation with zeros and from every element being visited once. "
+                         "This composition over the loops is an argument on paper, backed by the bounded DOF-map contracts on real runs")
     return run.finish()
 
 
